@@ -421,6 +421,13 @@ func (c *copier) copy(ctx context.Context, src, srcComponents, target string, ov
 		if err != nil {
 			return errors.Wrap(err, "failed to get hardlink")
 		}
+		if link != "" && !validLinkSource(link, fi) {
+			// the first member was replaced meanwhile: this one takes over
+			if inode, ok := getLinkInfo(fi); ok {
+				c.inodes[inode] = target
+			}
+			link = ""
+		}
 		if link != "" {
 			if err := os.Link(link, target); err != nil {
 				return errors.Wrap(err, "failed to create hard link")
@@ -442,6 +449,13 @@ func (c *copier) copy(ctx context.Context, src, srcComponents, target string, ov
 		link, err := getLinkSource(target, fi, c.inodes)
 		if err != nil {
 			return errors.Wrap(err, "failed to get hardlink")
+		}
+		if link != "" && !validLinkSource(link, fi) {
+			// the first member was replaced meanwhile: this one takes over
+			if inode, ok := getLinkInfo(fi); ok {
+				c.inodes[inode] = target
+			}
+			link = ""
 		}
 		if link != "" {
 			if err := os.Link(link, target); err != nil {
